@@ -13,6 +13,8 @@
 //   "done <status>"
 // Requests:  run out=<dir> T=<hex> dt=<hex> S=<hex> mesh=cube|ico1 n=<cells> gap=<m> instr=0|1 phys=0|1 g=<rate> minv=<frac>
 //                divv=<frac> sched=it:pos:R|D,...  maxit=<cap>
+//            (phys=0: arbitrary time scale — the cells are static, i.e. skipped by the node update; growth, pressure, removal, statistics and
+//             files run as usual)
 //            read <path>          (real mesh_reader on a written file: number of cells, nodes and faces per cell)
 #include "proto.hpp"
 #include <map>
@@ -29,7 +31,7 @@ class cell_tester {
 public:
     static void set_type(cell& c, cell_type_param_ptr p){ c.cell_type_ = p; }
     static void set_division_volume(cell& c, double v){ c.division_volume_ = v; }
-    static void set_growth_rate(cell& c, double v){ c.growth_rate_ = v; }
+    static void set_static(cell& c, bool v){ c.is_static_ = v; }
 };
 
 namespace {
@@ -69,6 +71,7 @@ public:
     using solver::solver;
     std::vector<sched_item> sched_;
     long maxit_ = 100000;
+    bool inert_ = false;
     tee_writer* tee_ = nullptr;
     void wrap_writer(){
         tee_ = new tee_writer();
@@ -86,10 +89,15 @@ public:
 
     void run_iteration() noexcept(false) override {
         if((long)iteration_ >= maxit_) throw std::runtime_error("iteration-cap");
+        size_t nb_nodes = 0;
+        for(const cell_ptr& c : cell_lst_) nb_nodes += c->get_node_lst().size();
+        if(nb_nodes > 20000) throw std::runtime_error("mesh-explosion");
+        // phys=0: the time step is arbitrary (not a stable step of the mechanics): the cells are kept where they are
+        if(inert_) for(const cell_ptr& c : cell_lst_) cell_tester::set_static(*c, true);
         // scheduled parameter changes that force an event at a chosen list position during this iteration
         for(const auto& s : sched_) if(s.it == (long)iteration_ && cell_lst_.size() > 0){
             cell_ptr c = cell_lst_[s.pos % cell_lst_.size()];
-            if(s.act == 'R'){ auto t = std::make_shared<cell_type_parameters>(*c->get_cell_type()); t->min_vol_ = 1e30; cell_tester::set_type(*c, t); }
+            if(s.act == 'R'){ auto t = std::make_shared<cell_type_parameters>(*c->get_cell_type()); t->min_vol_ = 1e3; t->max_pressure_ = 10.; cell_tester::set_type(*c, t); }   // own copy of the type; pressure capped: the target volume is clamped up to min_vol_
             else if(s.act == 'D'){ cell_tester::set_division_volume(*c, 0.); }
         }
         std::ostringstream o;
@@ -244,6 +252,7 @@ std::string run_scenario(const std::map<std::string, std::string>& kv){
     cells.clear();
     sol.sched_ = sched;
     sol.maxit_ = std::stol(get("maxit", "100000"));
+    sol.inert_ = !phys;
     sol.wrap_writer();
     g_solver = &sol;
     std::cout << "init " << vproto::to_hex(v0) << ' ' << sol.counter() << ' ' << ids_of(sol.get_cell_lst()) << '\n';
